@@ -111,6 +111,8 @@ theorem c07_add_shapeFld (S : StrFns) (L : List Mapper) (m : Mapper) :
     ∀ f : Fld, stepFldOK S m L f = true → add S false m (shapeFld S L f) = shapeFld S (L ++ [m]) f
   | .scalar n o, _ => by
     simp [shapeFld, add, addKey, addVal_fld, c07_keyOf_append]
+  | .mapped n o ci fs, _ => by
+    simp [shapeFld, add, addKey, addVal_fld, c07_keyOf_append]
   | .nested n o sh ci fs, hm => by
     simp only [stepFldOK, stepNestOK, and_true_iff', Bool.not_eq_true'] at hm
     obtain ⟨hhit, hagree⟩ := hm
@@ -154,6 +156,7 @@ theorem c07_foldAdd_shape (S : StrFns) (fs : List Fld) :
 
 theorem c07_shapeFld_nil (S : StrFns) : ∀ f : Fld, shapeFld S [] f = baseFld S false f
   | .scalar n o => by simp [shapeFld, baseFld, keyOf]
+  | .mapped n o ci fs => by simp [shapeFld, baseFld, keyOf]
   | .nested n o sh own fs => by simp [shapeFld, baseFld, keyOf, nk, handed, thru, foldAdd, CInfo.lst]
 
 theorem c07_shapeFields_nil (S : StrFns) : ∀ fs : List Fld, shapeFields S [] fs = baseFields S false fs
@@ -211,6 +214,7 @@ theorem c07_shape_nest_inv (S : StrFns) (L : List Mapper) (k : String) (w : MV) 
     rcases hm with hm | hm
     · cases f with
       | scalar n o => simp [shapeFld] at hm
+      | mapped n o ci fs' => simp [shapeFld] at hm
       | nested n o sh own fs' =>
         simp only [shapeFld, List.mem_cons, List.not_mem_nil, or_false] at hm
         rcases hm with hm | hm
@@ -229,6 +233,7 @@ theorem c07_shape_nest_inv (S : StrFns) (L : List Mapper) (k : String) (w : MV) 
           rcases hm with hm | hm
           · cases g with
             | scalar n o => simp [shapeFld] at hm
+            | mapped n o ci fs' => simp [shapeFld] at hm
             | nested n o sh own fs' =>
               simp only [shapeFld, List.mem_cons, List.not_mem_nil, or_false] at hm
               rcases hm with hm | hm
@@ -257,59 +262,20 @@ theorem c07_handed_reagg (S : StrFns) (T : List Mapper) (fs : List Fld)
   have := c07_handed_shape S T [] fs (by simpa using hk)
   simpa using this
 
-theorem c07_reaggF_nested {S : StrFns} {L : List Mapper} {full : List Fld} {n : String} {o : Bool}
-    {sh : Shape} {own : CInfo} {fs : List Fld} (h : reaggF S L full (.nested n o sh own fs) = true) :
-    trackOK S L n = true ∧ noCross S L full n = true ∧ fs ≠ [] ∧
-      (((own.desL = [] ∧ own.ser = []) ∧ prefixOK S fs [] (thru n L) = true
-          ∧ mkeysNodup (shapeFields S (thru n L) fs) = true ∧ reaggFs S (thru n L) fs fs = true)
-       ∨ (thru n L = [] ∧ prefixOK S fs [] own.desL = true ∧ selfOK S own.desL fs = true)) := by
-  simp only [reaggF, and_true_iff', Bool.or_eq_true] at h
-  obtain ⟨⟨⟨h1, h2⟩, h3⟩, h4⟩ := h
-  refine ⟨h1, h2, ?_, ?_⟩
-  · intro e; subst e; simp at h3
-  · rcases h4 with ⟨⟨⟨⟨a, b⟩, c⟩, d⟩, e⟩ | ⟨⟨a, c⟩, d⟩
-    · exact Or.inl ⟨⟨by simpa using a, by simpa using b⟩, c, d, e⟩
-    · exact Or.inr ⟨by simpa using a, c, d⟩
+theorem c07_mvFlatEq {a b : MV} (h : mvFlatEq a b = true) : a = b := by
+  cases a <;> cases b <;> simp_all [mvFlatEq]
 
-/-! ### a shape list equals itself as a Python dict; applying it to itself changes nothing -/
-
-theorem c07_mvEq_flat_refl (v : MV) (h : (match v with | .sub _ => false | _ => true) = true) :
-    mvEq v v = true := by
-  cases v with
-  | key s => simp [mvEq]
-  | dns => simp [mvEq]
-  | sub q => simp at h
-
-mutual
-theorem c07_self_dSub_fs (S : StrFns) :
-    ∀ (sub full : List Fld) (L : List Mapper), (∀ f ∈ sub, f ∈ full) →
-      mkeysNodup (shapeFields S L full) = true → selfFs S L sub = true →
-      dSub (shapeFields S L sub) (shapeFields S L full) = true
-  | [], _, _, _, _, _ => by simp [shapeFields, dSub]
-  | f :: sub, full, L, hs, hn, hr => by
-    simp only [selfFs, and_true_iff'] at hr
-    simp only [shapeFields, c07_dSub_append, and_true_iff']
-    exact ⟨c07_self_dSub_f S f full L (hs f (List.mem_cons_self ..)) hn hr.1,
-      c07_self_dSub_fs S sub full L (fun g hg => hs g (List.mem_cons_of_mem _ hg)) hn hr.2⟩
-theorem c07_self_dSub_f (S : StrFns) :
-    ∀ (f : Fld) (full : List Fld) (L : List Mapper), f ∈ full →
-      mkeysNodup (shapeFields S L full) = true → selfF S L f = true →
-      dSub (shapeFld S L f) (shapeFields S L full) = true
-  | .scalar n o, full, L, hm, hn, hr => by
-    have hl := c07_lookupR_shape_fld S L full _ hn hm
-    simp only [Fld.name] at hl
-    simp only [selfF, keyFlat] at hr
-    simp [shapeFld, dSub, hl, c07_mvEq_flat_refl _ hr]
-  | .nested n o sh ci fs, full, L, hm, hn, hr => by
-    simp only [selfF, and_true_iff', keyFlat] at hr
-    obtain ⟨⟨⟨hflat, hpre⟩, hnod⟩, hrec⟩ := hr
-    have hl := c07_lookupR_shape_fld S L full _ hn hm
-    simp only [Fld.name] at hl
-    have hl2 := c07_lookupR_shape_nest S L full n o sh ci fs hn hm
-    have hh := c07_handed_shape S (thru n L) ci.desL fs hpre
-    have ih := c07_self_dSub_fs S fs fs _ (fun g hg => hg) hnod hrec
-    simp [shapeFld, dSub, hl, hl2, c07_mvEq_flat_refl _ hflat, mvEq, hh, ih]
-end
+theorem c07_reaggF_nested {S : StrFns} {B L : List Mapper} {full : List Fld} {n : String} {o : Bool}
+    {sh : Shape} {own : CInfo} {fs : List Fld} (h : reaggF S B L full (.nested n o sh own fs) = true) :
+    fldStepOK S B L full n = true
+      ∧ (lookupR (.nest (nk S B n)) (shapeFields S L full) = none ∨ nk S L n = nk S B n)
+      ∧ nestName (applyKey S (.dict (shapeFields S L full)) (nk S B n)) = nk S L n
+      ∧ prefixOK S fs [] (own.desL ++ thru n B) = true ∧ prefixOK S fs [] (own.desL ++ thru n L) = true
+      ∧ mkeysNodup (shapeFields S (own.desL ++ thru n L) fs) = true
+      ∧ reaggFs S (own.desL ++ thru n B) (own.desL ++ thru n L) fs fs = true := by
+  simp only [reaggF, and_true_iff', Bool.or_eq_true, beq_iff_eq, Option.isNone_iff_eq_none] at h
+  obtain ⟨⟨⟨⟨⟨⟨h1, h2⟩, h3⟩, h4⟩, h5⟩, h6⟩, h7⟩ := h
+  exact ⟨h1, h2, h3, h4, h5, h6, h7⟩
 
 /-- a dict mapper each of whose entries is found, equal, in the current aggregate leaves it as it is -/
 theorem c07_add_dict_self (S : StrFns) (b : Bool) (p : MDict) :
@@ -331,69 +297,78 @@ theorem c07_add_dict_self (S : StrFns) (b : Bool) (p : MDict) :
       | sub q => simp [addVal, hhit]
     simp only [add, hk, hv, c07_add_dict_self S b p r h.2]
 
-theorem c07_self_apply (S : StrFns) (L : List Mapper) (fs : List Fld) (h : selfOK S L fs = true) :
-    norm (add S false (.dict (shapeFields S L fs)) (shapeFields S L fs)) = shapeFields S L fs := by
-  simp only [selfOK, and_true_iff'] at h
-  rw [c07_add_dict_self S false _ _ (c07_self_dSub_fs S fs fs L (fun g hg => hg) h.1 h.2),
-    c07_norm_of_nodup _ h.1]
+/-! ### E4: a shape list that equals another (of the same class) as a Python dict *is* that list -/
 
 mutual
-theorem c07_shape_eq_base_fs (S : StrFns) :
-    ∀ (sub full : List Fld) (E : List Mapper), (∀ f ∈ sub, f ∈ full) →
-      mkeysNodup (shapeFields S E full) = true → reaggFs S E full sub = true →
-      dSub (shapeFields S [] sub) (shapeFields S E full) = true →
-      shapeFields S E sub = shapeFields S [] sub
-  | [], _, _, _, _, _, _ => by simp [shapeFields]
-  | f :: sub, full, E, hs, hn, hr, hd => by
+theorem c07_shape_eq_fs (S : StrFns) :
+    ∀ (sub full : List Fld) (B L : List Mapper), (∀ f ∈ sub, f ∈ full) →
+      mkeysNodup (shapeFields S L full) = true → reaggFs S B L full sub = true →
+      dSub (shapeFields S B sub) (shapeFields S L full) = true →
+      shapeFields S L sub = shapeFields S B sub
+  | [], _, _, _, _, _, _, _ => by simp [shapeFields]
+  | f :: sub, full, B, L, hs, hn, hr, hd => by
     simp only [reaggFs, and_true_iff'] at hr
     simp only [shapeFields, c07_dSub_append, and_true_iff'] at hd
     simp only [shapeFields]
-    rw [c07_shape_eq_base_f S f full E (hs f (List.mem_cons_self ..)) hn hr.1 hd.1,
-      c07_shape_eq_base_fs S sub full E (fun g hg => hs g (List.mem_cons_of_mem _ hg)) hn hr.2 hd.2]
-theorem c07_shape_eq_base_f (S : StrFns) :
-    ∀ (f : Fld) (full : List Fld) (E : List Mapper), f ∈ full →
-      mkeysNodup (shapeFields S E full) = true → reaggF S E full f = true →
-      dSub (shapeFld S [] f) (shapeFields S E full) = true →
-      shapeFld S E f = shapeFld S [] f
-  | .scalar n o, full, E, hm, hn, _, hd => by
-    have hl := c07_lookupR_shape_fld S E full _ hn hm
+    rw [c07_shape_eq_f S f full B L (hs f (List.mem_cons_self ..)) hn hr.1 hd.1,
+      c07_shape_eq_fs S sub full B L (fun g hg => hs g (List.mem_cons_of_mem _ hg)) hn hr.2 hd.2]
+theorem c07_shape_eq_f (S : StrFns) :
+    ∀ (f : Fld) (full : List Fld) (B L : List Mapper), f ∈ full →
+      mkeysNodup (shapeFields S L full) = true → reaggF S B L full f = true →
+      dSub (shapeFld S B f) (shapeFields S L full) = true →
+      shapeFld S L f = shapeFld S B f
+  | .scalar n o, full, B, L, hm, hn, hr, hd => by
+    have hl := c07_lookupR_shape_fld S L full _ hn hm
     simp only [Fld.name] at hl
-    have hk0 : keyOf S [] n = .key n := rfl
-    simp only [shapeFld, dSub, hl, hk0, and_true_iff'] at hd
-    have := c07_mvEq_key hd.1
-    simp only [shapeFld, this, hk0]
-  | .nested n o sh own fs, full, E, hm, hn, hr, hd => by
-    obtain ⟨_, hcross, _, hbr⟩ := c07_reaggF_nested hr
-    have hl := c07_lookupR_shape_fld S E full _ hn hm
+    simp only [shapeFld, dSub, hl, and_true_iff'] at hd
+    simp only [reaggF, fldStepOK] at hr
+    have hkey : keyOf S L n = keyOf S B n := by
+      cases hk : keyOf S B n with
+      | key s => rw [hk] at hd; exact c07_mvEq_key hd.1
+      | dns => rw [hk] at hd; exact c07_mvEq_dns hd.1
+      | sub q => rw [hk] at hr; simp [stepKey, mvFlatEq] at hr
+    simp only [shapeFld, hkey]
+  | .mapped n o ci fs', full, B, L, hm, hn, hr, hd => by
+    have hl := c07_lookupR_shape_fld S L full _ hn hm
     simp only [Fld.name] at hl
-    have ht0 : thru n [] = [] := rfl
-    simp only [shapeFld, ht0, dSub, hl, and_true_iff'] at hd
+    simp only [shapeFld, dSub, hl, and_true_iff'] at hd
+    simp only [reaggF, fldStepOK] at hr
+    have hkey : keyOf S L n = keyOf S B n := by
+      cases hk : keyOf S B n with
+      | key s => rw [hk] at hd; exact c07_mvEq_key hd.1
+      | dns => rw [hk] at hd; exact c07_mvEq_dns hd.1
+      | sub q => rw [hk] at hr; simp [stepKey, mvFlatEq] at hr
+    simp only [shapeFld, hkey]
+  | .nested n o sh own fs, full, B, L, hm, hn, hr, hd => by
+    obtain ⟨hstep, hcross, _, hpreB, hpreL, hnod, hrec⟩ := c07_reaggF_nested hr
+    have hl := c07_lookupR_shape_fld S L full _ hn hm
+    simp only [Fld.name] at hl
+    simp only [shapeFld, dSub, hl, and_true_iff'] at hd
     obtain ⟨hd1, hd2, _⟩ := hd
-    have hk0 : keyOf S [] n = .key n := rfl
-    have hkey : keyOf S E n = .key n := by
-      rw [hk0] at hd2
-      exact c07_mvEq_key hd2
-    cases hlk : lookupR (.nest (nk S [] n)) (shapeFields S E full) with
+    simp only [fldStepOK] at hstep
+    have hkey : keyOf S L n = keyOf S B n := by
+      cases hk : keyOf S B n with
+      | key s => rw [hk] at hd2; exact c07_mvEq_key hd2
+      | dns => rw [hk] at hd2; exact c07_mvEq_dns hd2
+      | sub q => rw [hk] at hstep; simp [stepKey, mvFlatEq] at hstep
+    cases hlk : lookupR (.nest (nk S B n)) (shapeFields S L full) with
     | none => rw [hlk] at hd1; simp at hd1
     | some w =>
       rw [hlk] at hd1
-      have hnn : nk S [] n = n := by simp [nk]
-      rw [hnn] at hlk
-      have hnk : nk S E n = n := by
-        simp only [noCross, hlk, Option.isNone_some, Bool.false_or, beq_iff_eq] at hcross
-        exact hcross
-      have hl2 := c07_lookupR_shape_nest S E full n o sh own fs hn hm
+      have hnk : nk S L n = nk S B n := by
+        rcases hcross with h | h
+        · rw [hlk] at h; cases h
+        · exact h
+      have hl2 := c07_lookupR_shape_nest S L full n o sh own fs hn hm
       rw [hnk, hlk] at hl2
       injection hl2 with hl2
       subst hl2
       simp only [mvEq, and_true_iff'] at hd1
-      rcases hbr with ⟨⟨hd0, _⟩, hpre, hnod, hrec⟩ | ⟨hT, _, _⟩
-      · rw [hd0] at hd1
-        have hh : handed S (thru n E) [] fs = shapeFields S (thru n E) fs := c07_handed_reagg S _ fs hpre
-        rw [hh, c07_handed_nil] at hd1
-        have ih := c07_shape_eq_base_fs S fs fs (thru n E) (fun g hg => hg) hnod hrec hd1.2
-        simp only [shapeFld, hd0, ht0, hnk, hnn, hkey, hh, c07_handed_nil, ih, hk0]
-      · simp only [shapeFld, ht0, hT, hnk, hnn, hkey, hk0]
+      have hA := c07_handed_shape S (thru n B) own.desL fs hpreB
+      have hH := c07_handed_shape S (thru n L) own.desL fs hpreL
+      rw [hA, hH] at hd1
+      have ih := c07_shape_eq_fs S fs fs _ _ (fun g hg => hg) hnod hrec hd1.2
+      simp only [shapeFld, hnk, hkey, hA, hH, ih]
 end
 
 /-! ### E3: re-aggregating a class under the shape list it was handed gives that shape list again -/
@@ -418,92 +393,73 @@ theorem c07_trackOK {S : StrFns} {L : List Mapper} {n : String} (h : trackOK S L
 
 mutual
 theorem c07_reagg_fs (S : StrFns) :
-    ∀ (sub full : List Fld) (L : List Mapper), (∀ f ∈ sub, f ∈ full) →
-      mkeysNodup (shapeFields S L full) = true → reaggFs S L full sub = true →
-      add S false (.dict (shapeFields S L full)) (baseFields S false sub) = shapeFields S L sub
-  | [], _, _, _, _, _ => by simp [baseFields, shapeFields, add]
-  | f :: sub, full, L, hs, hn, hr => by
+    ∀ (sub full : List Fld) (B L : List Mapper), (∀ f ∈ sub, f ∈ full) →
+      mkeysNodup (shapeFields S L full) = true → reaggFs S B L full sub = true →
+      add S false (.dict (shapeFields S L full)) (shapeFields S B sub) = shapeFields S L sub
+  | [], _, _, _, _, _, _ => by simp [shapeFields, add]
+  | f :: sub, full, B, L, hs, hn, hr => by
     simp only [reaggFs, and_true_iff'] at hr
-    simp only [baseFields, shapeFields, c07_add_append]
-    rw [c07_reagg_f S f full L (hs f (List.mem_cons_self ..)) hn hr.1,
-      c07_reagg_fs S sub full L (fun g hg => hs g (List.mem_cons_of_mem _ hg)) hn hr.2]
+    simp only [shapeFields, c07_add_append]
+    rw [c07_reagg_f S f full B L (hs f (List.mem_cons_self ..)) hn hr.1,
+      c07_reagg_fs S sub full B L (fun g hg => hs g (List.mem_cons_of_mem _ hg)) hn hr.2]
 theorem c07_reagg_f (S : StrFns) :
-    ∀ (f : Fld) (full : List Fld) (L : List Mapper), f ∈ full →
-      mkeysNodup (shapeFields S L full) = true → reaggF S L full f = true →
-      add S false (.dict (shapeFields S L full)) (baseFld S false f) = shapeFld S L f
-  | .scalar n o, full, L, hm, hn, _ => by
-    have hl := c07_lookupR_shape_fld S L full _ hn hm
-    simp only [Fld.name] at hl
-    simp [baseFld, shapeFld, add, addKey, addVal_fld, c07_stepKey_dict_self S _ n _ hl]
-  | .nested n o sh own fs, full, L, hm, hn, hr => by
-    obtain ⟨htrack, hcross, _, hbr⟩ := c07_reaggF_nested hr
-    have hl := c07_lookupR_shape_fld S L full _ hn hm
-    simp only [Fld.name] at hl
+    ∀ (f : Fld) (full : List Fld) (B L : List Mapper), f ∈ full →
+      mkeysNodup (shapeFields S L full) = true → reaggF S B L full f = true →
+      add S false (.dict (shapeFields S L full)) (shapeFld S B f) = shapeFld S L f
+  | .scalar n o, full, B, L, _, _, hr => by
+    simp only [reaggF, fldStepOK] at hr
+    simp [shapeFld, add, addKey, addVal_fld, c07_mvFlatEq hr]
+  | .mapped n o ci fs', full, B, L, _, _, hr => by
+    simp only [reaggF, fldStepOK] at hr
+    simp [shapeFld, add, addKey, addVal_fld, c07_mvFlatEq hr]
+  | .nested n o sh own fs, full, B, L, hm, hn, hr => by
+    obtain ⟨hstep, hcross, hrekey, hpreB, hpreL, hnod, hrec⟩ := c07_reaggF_nested hr
     have hl2 := c07_lookupR_shape_nest S L full n o sh own fs hn hm
-    have hkey := c07_trackOK htrack
-    -- `A`: the nested class's own aggregate (the base entry); `H`: what the parent handed down for it
-    have hF1 : dSub (foldAdd S false own.desL (baseFields S false fs)) (handed S (thru n L) own.desL fs) = true →
-        foldAdd S false own.desL (baseFields S false fs) = handed S (thru n L) own.desL fs := by
-      intro hd
-      rcases hbr with ⟨⟨hd0, _⟩, hpre, hnod, hrec⟩ | ⟨hE, _, _⟩
-      · rw [hd0] at hd ⊢
-        have hh := c07_handed_reagg S (thru n L) fs hpre
-        have hf : foldAdd S false [] (baseFields S false fs) = baseFields S false fs := by simp [foldAdd]
-        rw [hf, hh, ← c07_shapeFields_nil] at hd
-        rw [hf, hh, ← c07_shapeFields_nil]
-        exact (c07_shape_eq_base_fs S fs fs (thru n L) (fun g hg => hg) hnod hrec hd).symm
-      · simp [handed, hE, foldAdd]
-    have hF2 : norm (add S false (.dict (handed S (thru n L) own.desL fs))
-        (foldAdd S false own.desL (baseFields S false fs))) = handed S (thru n L) own.desL fs := by
-      rcases hbr with ⟨⟨hd0, _⟩, hpre, hnod, hrec⟩ | ⟨hE, hpre, hself⟩
-      · rw [hd0]
-        have hh := c07_handed_reagg S (thru n L) fs hpre
-        have hf : foldAdd S false [] (baseFields S false fs) = baseFields S false fs := by simp [foldAdd]
-        rw [hf, hh, c07_reagg_fs S fs fs (thru n L) (fun g hg => hg) hnod hrec, c07_norm_of_nodup _ hnod]
-      · have hA : foldAdd S false own.desL (baseFields S false fs) = shapeFields S own.desL fs :=
-          c07_foldAdd_base S fs own.desL hpre
-        have hH : handed S (thru n L) own.desL fs = shapeFields S own.desL fs := by
-          unfold handed
-          rw [hE, hA]
-          simp [foldAdd]
-        rw [hA, hH]
-        exact c07_self_apply S own.desL fs hself
-    simp only [baseFld, shapeFld, CInfo.lst, Bool.false_eq_true, if_false, add, addVal_fld,
-      c07_stepKey_dict_self S _ n _ hl]
-    generalize foldAdd S false own.desL (baseFields S false fs) = A at *
-    generalize handed S (thru n L) own.desL fs = H at *
-    by_cases hhit : hit (.dict (shapeFields S L full)) (.nest n) (.sub A) = true
+    have hA := c07_handed_shape S (thru n B) own.desL fs hpreB
+    have hH := c07_handed_shape S (thru n L) own.desL fs hpreL
+    rw [hH] at hl2
+    simp only [fldStepOK] at hstep
+    simp only [shapeFld, add, addVal_fld, c07_mvFlatEq hstep, hA, hH]
+    by_cases hhit : hit (.dict (shapeFields S L full)) (.nest (nk S B n))
+        (.sub (shapeFields S (own.desL ++ thru n B) fs)) = true
     · -- the handed-down entry equals the nested class's own aggregate: kept as it is
-      have hk : addKey S false (.dict (shapeFields S L full)) (.nest n) (.sub A) = .nest n := by
+      have hk : addKey S false (.dict (shapeFields S L full)) (.nest (nk S B n))
+          (.sub (shapeFields S (own.desL ++ thru n B) fs)) = .nest (nk S B n) := by
         simp [addKey, hhit]
-      have hv : addVal S false (.dict (shapeFields S L full)) (.nest n) (.sub A) = .sub A := by
+      have hv : addVal S false (.dict (shapeFields S L full)) (.nest (nk S B n))
+          (.sub (shapeFields S (own.desL ++ thru n B) fs)) = .sub (shapeFields S (own.desL ++ thru n B) fs) := by
         simp [addVal, hhit]
       rw [hk, hv]
       simp only [hit] at hhit
-      cases hlk : lookupR (.nest n) (shapeFields S L full) with
+      cases hlk : lookupR (.nest (nk S B n)) (shapeFields S L full) with
       | none => rw [hlk] at hhit; simp at hhit
       | some w =>
         rw [hlk] at hhit
-        have hnk : nk S L n = n := by
-          simp only [noCross, hlk, Option.isNone_some, Bool.false_or, beq_iff_eq] at hcross
-          exact hcross
+        have hnk : nk S L n = nk S B n := by
+          rcases hcross with h | h
+          · rw [hlk] at h; cases h
+          · exact h
         rw [hnk, hlk] at hl2
         injection hl2 with hl2
         subst hl2
         simp only [mvEq, and_true_iff'] at hhit
-        rw [hnk, hF1 hhit.2]
+        have e4 := c07_shape_eq_fs S fs fs _ _ (fun g hg => hg) hnod hrec hhit.2
+        rw [hnk, e4]
         simp [addKey]
-    · have hhit' : hit (.dict (shapeFields S L full)) (.nest n) (.sub A) = false := by
+    · have hhit' : hit (.dict (shapeFields S L full)) (.nest (nk S B n))
+          (.sub (shapeFields S (own.desL ++ thru n B) fs)) = false := by
         simpa using hhit
-      have hap : applyKey S (.dict (shapeFields S L full)) n = .key (nk S L n) := by
-        simp [applyKey, hl, hkey]
-      have hk : addKey S false (.dict (shapeFields S L full)) (.nest n) (.sub A) = .nest (nk S L n) := by
-        simp [addKey, hhit', newNest, hap, nestName]
-      have hsub : subOf (.dict (shapeFields S L full)) (nk S L n) n = some (.dict H) := by
+      have hk : addKey S false (.dict (shapeFields S L full)) (.nest (nk S B n))
+          (.sub (shapeFields S (own.desL ++ thru n B) fs)) = .nest (nk S L n) := by
+        simp [addKey, hhit', newNest, hrekey]
+      have hsub : subOf (.dict (shapeFields S L full)) (nk S L n) (nk S B n)
+          = some (.dict (shapeFields S (own.desL ++ thru n L) fs)) := by
         simp [subOf, hl2]
-      have hv : addVal S false (.dict (shapeFields S L full)) (.nest n) (.sub A) = .sub H := by
-        simp only [addVal, hhit', Bool.false_eq_true, if_false, newNest, hap, nestName, hsub, subResult]
-        rw [hF2]
+      have hv : addVal S false (.dict (shapeFields S L full)) (.nest (nk S B n))
+          (.sub (shapeFields S (own.desL ++ thru n B) fs))
+          = .sub (shapeFields S (own.desL ++ thru n L) fs) := by
+        simp only [addVal, hhit', Bool.false_eq_true, if_false, newNest, hrekey, hsub, subResult]
+        rw [c07_reagg_fs S fs fs _ _ (fun g hg => hg) hnod hrec, c07_norm_of_nodup _ hnod]
       rw [hk, hv]
       simp [addKey]
 end
@@ -512,7 +468,7 @@ end
 theorem c07_reagg (S : StrFns) (L : List Mapper) (fs : List Fld) (h : reaggOK S L fs = true) :
     norm (add S false (.dict (shapeFields S L fs)) (baseFields S false fs)) = shapeFields S L fs := by
   simp only [reaggOK, and_true_iff'] at h
-  rw [c07_reagg_fs S fs fs L (fun g hg => hg) h.1 h.2, c07_norm_of_nodup _ h.1]
+  rw [← c07_shapeFields_nil, c07_reagg_fs S fs fs [] L (fun g hg => hg) h.1 h.2, c07_norm_of_nodup _ h.1]
 
 theorem c07_shapeFields_ne_nil (S : StrFns) (L : List Mapper) :
     ∀ fs : List Fld, fs ≠ [] → ∃ e d, shapeFields S L fs = e :: d
@@ -520,6 +476,7 @@ theorem c07_shapeFields_ne_nil (S : StrFns) (L : List Mapper) :
   | f :: fs, _ => by
     cases f with
     | scalar n o => exact ⟨_, _, by simp [shapeFields, shapeFld]; exact ⟨rfl, rfl⟩⟩
+    | mapped n o ci fs' => exact ⟨_, _, by simp [shapeFields, shapeFld]; exact ⟨rfl, rfl⟩⟩
     | nested n o sh own fs' => exact ⟨_, _, by simp [shapeFields, shapeFld]; exact ⟨rfl, rfl⟩⟩
 
 theorem c07_stepFldOK_camel (S : StrFns) (L : List Mapper) (f : Fld) : stepFldOK S .camel L f = true := by
@@ -553,6 +510,7 @@ theorem c07_rtFld_name (S : StrFns) (camel ku : Bool) (lv : LevelPred) (ms M : M
     (p : String × J) (h : rtFld S camel ku lv ms M f p = true) : f.name = p.1 := by
   cases f with
   | scalar n o => simp only [rtFld, and_true_iff', beq_iff_eq] at h; simp [Fld.name, h.1]
+  | mapped n o ci fs' => simp [rtFld] at h
   | nested n o sh own fs => simp only [rtFld, and_true_iff', beq_iff_eq] at h; simp [Fld.name, h.1]
 
 theorem c07_rtFields_names (S : StrFns) (camel ku : Bool) (lv : LevelPred) (ms M : MDict) :
@@ -579,6 +537,7 @@ theorem c07_agrees_lookup (S : StrFns) (d : MDict) (L : List Mapper) (fs : List 
   have := c07_agreesF_of_mem S d L fs h fl hm
   cases fl with
   | scalar n o => simpa [AgreesF, Fld.name] using this
+  | mapped n o ci fs' => simpa [AgreesF, Fld.name] using this
   | nested n o sh own fs' => simp only [AgreesF] at this; simpa [Fld.name] using this.1
 
 /-- inside the demanded domain, equal field entries on both sides give all level hypotheses -/
@@ -710,6 +669,7 @@ theorem c07_sync_fld (S : StrFns) (camel : Bool)
       rtFld S camel ku (levelDomE S) ms (shapeFields S Ld full) f p = true →
       rtFld S camel ku (levelOK S) ms (shapeFields S Ld full) f p = true
   | .scalar n o, _, _, _, _, _, _, _, _, _, _, _, h => by simpa [rtFld] using h
+  | .mapped n o ci fs', _, _, _, _, _, _, _, _, _, _, _, h => by simp [rtFld] at h
   | .nested n o sh ci fs, full, ku, ms, Ls, Ld, p, hrel, hn, ha, hm, hr, h => by
     simp only [regionF, and_true_iff'] at hr
     obtain ⟨⟨⟨⟨⟨⟨hdes, htrack⟩, hne⟩, hpre⟩, hreagg⟩, hprec⟩, hregion⟩ := hr
